@@ -90,7 +90,12 @@ Fixpoint texts_ok07 (t : template16) : bool :=
   | SigBlock _ _ body :: r => body_ok07 body && texts_ok07 r
   end.
 
-Definition in_grammar07 (t : template16) : bool := texts_ok07 t.
+(* every body line has a literal piece with a visible character (so no expanded copy is blank) *)
+Definition has_ink (l : uline) : bool := existsb (fun g => match g with Lit s => negb (all_ws s) | _ => false end) l.
+Definition inky (t : template16) : bool :=
+  forallb (fun it => match it with Block _ _ _ body => forallb has_ink body | SigBlock _ _ body => forallb has_ink body | _ => true end) t.
+
+Definition in_grammar07 (t : template16) : bool := texts_ok07 t && inky t.
 
 (* ---------------------------------------------------------------- the cleaned names of the USER tags of the output *)
 Definition akey_seg (tb : list (string * string)) (g : seg) : string :=
@@ -151,4 +156,6 @@ Definition names_ok (t : template16) (e : elements) : bool :=
   forallb name_ok (all_names e)
   && forallb (fun n => negb (existsb (String.eqb n) (forbidden t))) (all_names e)
   && nodupb (el_states e) && nodupb (el_events e) && nodupb (el_actions e) && nodupb (el_guards e)
-  && nodup_pairs (el_sigs e) && nodupb (el_structs e) && nodupb (el_protos e) && nodupb (el_msgs e).
+  && nodup_pairs (el_sigs e) && nodupb (el_structs e) && nodupb (el_protos e) && nodupb (el_msgs e)
+  (* the event of a signature reads as itself (an absent event reads NONE, 'any' reads ANY) *)
+  && forallb (fun ae => String.eqb (sig_event_name (snd ae)) (snd ae)) (el_sigs e).
